@@ -3,12 +3,12 @@ module verifkit
 go 1.26.0
 
 require (
+	github.com/btcsuite/btcd/btcec/v2 v2.3.4
 	github.com/high-moctane/mocrelay v0.0.0-00010101000000-000000000000
 	golang.org/x/tools v0.50.0
 )
 
 require (
-	github.com/btcsuite/btcd/btcec/v2 v2.3.4 // indirect
 	github.com/btcsuite/btcd/chaincfg/chainhash v1.0.1 // indirect
 	github.com/coder/websocket v1.8.13 // indirect
 	github.com/decred/dcrd/crypto/blake256 v1.0.0 // indirect
